@@ -55,6 +55,7 @@ TAGS = {
 }
 CONCRETE_FLAGS = {"bias": (True, False), "elementwise_affine": (True, False), "padding_mode": ("zeros", "circular")}
 # options consumed at construction by torch's own constructor (sizes, placement, init)
+EFFECT_ON_PARAMETER = {"_freeze": "weight"}
 CONSUMED_BY_BASE = {"in_features", "out_features", "device", "dtype", "in_channels", "out_channels", "kernel_size", "num_embeddings", "embedding_dim", "_weight", "_freeze", "bias", "elementwise_affine"}
 
 
@@ -204,6 +205,25 @@ def check(report: Report, repo: Repo) -> None:
                     src = b.get("data")
                     oks = isinstance(src, T) and src.op == "call" and src.args[0] == "torch.ones"
                     report.add("R5-init", f"{cons}::ones", oks, f"{lab}: RMSNorm gain starts at ones", fmt(src), "torch.ones(normalized_shape)")
+            # ---- options whose whole effect, in torch's constructor, is a property of a parameter object
+            # (`_freeze` -> weight.requires_grad): re-wrapping that parameter must carry the effect over
+            for opt_, pname_ in EFFECT_ON_PARAMETER.items():
+                if opt_ not in vals or opt_ in unsupported:
+                    continue
+                vt = TM.term_of(vals[opt_])
+                pobj = selfv.attrs.get(pname_)
+                rewrapped = isinstance(TM.term_of(pobj), T) and TM.term_of(pobj).op == "call" and str(TM.term_of(pobj).args[0]).endswith("parameter.Parameter")
+                if not rewrapped:
+                    continue
+                carriers = [TM.term_of(pobj)]
+                last_p = max((i_ for i_, e_ in enumerate(init_events) if e_.kind == "call" and e_["callee"].endswith("parameter.Parameter")), default=-1)
+                for e_ in init_events[last_p + 1 :]:
+                    if e_.kind == "callv" and "requires_grad" in fmt(e_["callee"]):
+                        carriers += [TM.term_of(a_) for a_ in list(e_["args"]) + list(e_["kwargs"].values())] + [c_ for c_, _p in e_.guard]
+                    if e_.kind == "setattr" and str(e_["attr"]) == "requires_grad":
+                        carriers += [TM.term_of(e_["value"])] + [c_ for c_, _p in e_.guard]
+                ok_ = any(vt in list(TM.walk(TM.term_of(c_))) for c_ in carriers)
+                report.add("R2-options", f"{MD}::{cname}::{opt_}", ok_, f"{lab}: torch's constructor honours '{opt_}' through {pname_}.requires_grad; the module replaces {pname_} by a new Parameter(self.{pname_}.data, ...), which is trainable again, so the option is silently ignored unless it is re-applied", "lost when the parameter is re-wrapped" if not ok_ else "re-applied", "re-applied after re-wrapping")
             # ---- forward
             x = P("input", None)
             it.events = []
